@@ -235,6 +235,24 @@ pub fn run(data: &[u8], ctx: &mut Ctx) -> Outcome {
         }
     }
 
+    // --- a very compressible payload (one case in 300, decided by the envelope): more than a megabyte of
+    // one repeated byte, as a leaf and as the object of an assertion of this envelope
+    if crate::src::fnv(&orig_bytes) % 300 == 0 {
+        ctx.class("megabyte-run-payload");
+        let big = Envelope::new(dcbor::ByteString::from(vec![(orig_bytes.len() % 256) as u8; 1_100_000 + orig_bytes.len() * 1000 % 900_000]));
+        for (form, x) in [("leaf", big.clone()), ("object", e.add_assertion("C13-big", big.clone()))] {
+            let c = nopanic!(ctx, x.compress(), "big", "C13/big-run");
+            if let Ok(c) = c {
+                check!(ctx, c.digest() == x.digest(), "big", "C13/big-run", "compressing a megabyte run ({}) changed the digest", form);
+                let u = nopanic!(ctx, c.uncompress(), "big", "C13/big-run");
+                let u = tryp!(ctx, u.map_err(|z| format!("the library's own compression of a megabyte run of one byte ({}) does not uncompress: {}", form, z)), "big", "C13/big-run");
+                check!(ctx, u.to_cbor_data() == x.to_cbor_data(), "big", "C13/big-run", "uncompress(compress(x)) differs for a megabyte run ({})", form);
+                let rt = nopanic!(ctx, Envelope::try_from_cbor_data(c.to_cbor_data()).map_err(|z| z.to_string()).and_then(|y| y.uncompress().map_err(|z| z.to_string())).map(|y| y.digest() == x.digest()), "big", "C13/big-run");
+                check!(ctx, rt == Ok(true), "big", "C13/big-run", "a compressed megabyte run does not survive encode / decode / uncompress ({}): {:?}", form, rt);
+            }
+        }
+    }
+
     // --- faults
     let other = Envelope::new(format!("C13 other {}", src.below(1000)));
     let n_faults = 1 + src.below(3);
